@@ -12,7 +12,11 @@ type LLDP struct {
 }
 
 func (d *LLDP) Len() (n uint16) {
-	return 15
+	// chassis and port TLVs: 2-byte type/length word, subtype, ID; TTL TLV: type/length word, seconds
+	n += uint16(3 + len(d.Chassis.Data))
+	n += uint16(3 + len(d.Port.Data))
+	n += 4
+	return
 }
 
 func (d *LLDP) Read(b []byte) (n int, err error) {
